@@ -1745,6 +1745,283 @@ End Quiescent.
 
 
 
+
+(* ================= concurrent accounting: the root counters ================= *)
+Lemma sumN_tsum : forall n (f : N -> thread -> N) l,
+  sumN n (fun k => tsum (f k) l) = tsum (fun th => sumN n (fun k => f k th)) l.
+Proof.
+  intros n f l. induction l as [|a l IH].
+  - cbn [tsum fold_right]. apply sumN_zero. reflexivity.
+  - rewrite tsum_cons, <- IH, <- sumN_add. apply sumN_ext. intros. rewrite tsum_cons. reflexivity.
+Qed.
+
+Lemma sumN_indicator : forall n o0, sumN n (fun o => b2n (o0 =? o)) = b2n (o0 <? N.of_nat n).
+Proof.
+  induction n as [|n IH]; intro o0.
+  - cbn [sumN]. destruct (N.ltb_spec o0 (N.of_nat 0)); [lia | reflexivity].
+  - cbn [sumN]. rewrite IH.
+    destruct (N.ltb_spec o0 (N.of_nat n)); destruct (N.ltb_spec o0 (N.of_nat (S n))); destruct (N.eqb_spec o0 (N.of_nat n)); cbn [b2n]; lia.
+Qed.
+
+(* sum over all positions of levels 1..n *)
+Fixpoint lev_sum (n : nat) (F : pos -> N) : N :=
+  match n with
+  | O => 0
+  | S k => lev_sum k F + sumN (N.to_nat (2 ^ N.of_nat (S k))) (fun o => F (mkPos (N.of_nat (S k)) o))
+  end.
+
+Lemma lev_sum_tsum : forall n (f : pos -> thread -> N) l,
+  lev_sum n (fun p => tsum (f p) l) = tsum (fun th => lev_sum n (fun p => f p th)) l.
+Proof.
+  induction n as [|n IH]; intros f l.
+  - cbn [lev_sum]. symmetry. apply tsum_zero. reflexivity.
+  - cbn [lev_sum]. rewrite IH, sumN_tsum.
+    induction l as [|a l IHl]; [reflexivity|]. rewrite !tsum_cons. lia.
+Qed.
+
+Lemma lev_sum_add : forall n F G, lev_sum n (fun p => F p + G p) = lev_sum n F + lev_sum n G.
+Proof. induction n as [|n IH]; intros; cbn [lev_sum]; [reflexivity|]. rewrite IH, sumN_add. lia. Qed.
+
+Lemma lev_sum_zero : forall n F, (forall p, F p = 0) -> lev_sum n F = 0.
+Proof. induction n as [|n IH]; intros F H; cbn [lev_sum]; [reflexivity|]. rewrite IH by assumption. rewrite sumN_zero; [reflexivity|]. intros; apply H. Qed.
+
+Lemma lev_sum_indicator : forall n q, offset q < 2 ^ level q ->
+  lev_sum n (fun p => b2n (pos_eqb q p)) = b2n ((1 <=? level q) && (level q <=? N.of_nat n)).
+Proof.
+  induction n as [|n IH]; intros q Vq.
+  - cbn [lev_sum]. destruct (1 <=? level q) eqn:A; destruct (level q <=? N.of_nat 0) eqn:B; cbn [andb b2n]; lia.
+  - cbn [lev_sum]. rewrite (IH q Vq).
+    destruct (N.eq_dec (level q) (N.of_nat (S n))) as [E|E].
+    + rewrite (sumN_ext _ _ (fun o => b2n (offset q =? o))).
+      2: { intros k _. unfold pos_eqb. cbn [level offset]. rewrite E, N.eqb_refl. reflexivity. }
+      rewrite sumN_indicator. rewrite <- E. rewrite N.leb_refl.
+      destruct (offset q <? N.of_nat (N.to_nat (2 ^ level q))) eqn:LT; [|lia].
+      destruct (1 <=? level q) eqn:A; destruct (level q <=? N.of_nat n) eqn:B; destruct (level q <=? N.of_nat (S n)) eqn:C; cbn [andb b2n]; lia.
+    + rewrite sumN_zero.
+      2: { intros k _. unfold pos_eqb. cbn [level offset]. destruct (N.eqb_spec (level q) (N.of_nat (S n))); [contradiction | reflexivity]. }
+      destruct (1 <=? level q) eqn:A; destruct (level q <=? N.of_nat n) eqn:B; destruct (level q <=? N.of_nat (S n)) eqn:C; cbn [andb b2n]; lia.
+Qed.
+
+(* a call in progress that has claimed (pop) or is about to credit (push) something in the tree above the leaves *)
+Definition wC (th : thread) : N :=
+  match tpc th with
+  | PopLoad q | PopCas q _ | LeafLoad q | LeafCas q _ => b2n (1 <=? level q)
+  | PushInner _ _ _ => 1
+  | _ => 0
+  end.
+
+Lemma tsum_add3 : forall f g k (l : list thread), tsum (fun th => f th + g th + k th) l = tsum f l + tsum g l + tsum k l.
+Proof. induction l as [|a l IH]; [reflexivity|]. rewrite !tsum_cons, IH. lia. Qed.
+
+Section Conc.
+Variable c : cfg.
+Notation h := (ilc c).
+Hypothesis wf : WF c.
+Variable total : N.
+Variable inU : N -> bool.
+Hypothesis total_le : total <= cap c.
+Hypothesis inU_cap : forall x, inU x = true -> x < cap c.
+Variable st : state.
+Hypothesis HI : Inv c total inU st.
+Notation m := (nodes (sh st)).
+
+Lemma thread_in_tree : forall th, In th (ths st) ->
+  lev_sum (N.to_nat h) (fun p => wP p th + wU p th) = wC th.
+Proof.
+  intros th IN. pose proof (inv_thr _ _ _ _ HI) as T. rewrite Forall_forall in T. destruct (T th IN) as [_ W].
+  rewrite lev_sum_add. unfold wP, wU, wC. destruct (tpc th) eqn:E.
+  1,2,3,8,9,10: rewrite !lev_sum_zero by reflexivity; reflexivity.
+  - destruct W as ([V1 V2] & H1 & _). rewrite (lev_sum_indicator _ p V2), (lev_sum_zero _ (fun _ => 0)) by reflexivity.
+    destruct (1 <=? level p) eqn:A; destruct (level p <=? N.of_nat (N.to_nat h)) eqn:B; cbn [andb b2n]; lia.
+  - destruct W as ([V1 V2] & H1 & _). rewrite (lev_sum_indicator _ p V2), (lev_sum_zero _ (fun _ => 0)) by reflexivity.
+    destruct (1 <=? level p) eqn:A; destruct (level p <=? N.of_nat (N.to_nat h)) eqn:B; cbn [andb b2n]; lia.
+  - destruct W as ([V1 V2] & H1 & _). rewrite (lev_sum_indicator _ p V2), (lev_sum_zero _ (fun _ => 0)) by reflexivity.
+    destruct (1 <=? level p) eqn:A; destruct (level p <=? N.of_nat (N.to_nat h)) eqn:B; cbn [andb b2n]; lia.
+  - destruct W as ([V1 V2] & H1 & _). rewrite (lev_sum_indicator _ p V2), (lev_sum_zero _ (fun _ => 0)) by reflexivity.
+    destruct (1 <=? level p) eqn:A; destruct (level p <=? N.of_nat (N.to_nat h)) eqn:B; cbn [andb b2n]; lia.
+  - destruct W as (V & H1 & _). pose proof (valid_descend c wf p d V H1) as [V1 V2].
+    rewrite (lev_sum_zero _ (fun _ => 0)) by reflexivity. rewrite (lev_sum_indicator _ (descend p d) V2).
+    cbn [level descend] in *.
+    destruct (1 <=? level p + 1) eqn:A; destruct (level p + 1 <=? N.of_nat (N.to_nat h)) eqn:B; cbn [andb b2n]; lia.
+Qed.
+
+(* nothing is on its way to, or pending at, a node whose parent is dead *)
+Lemma dead_parent : forall p, valid c p -> 1 <= level p -> live c (ascend p) = false ->
+  tsum (wP p) (ths st) = 0 /\ tsum (wU p) (ths st) = 0 /\ live c p = false.
+Proof.
+  intros p Vp Hl D.
+  assert (LP : live c p = false).
+  { destruct (live c p) eqn:L; [|reflexivity]. rewrite (live_ascend c wf p Vp Hl L) in D. discriminate. }
+  pose proof (inv_thr _ _ _ _ HI) as T. rewrite Forall_forall in T.
+  split; [|split; [|assumption]].
+  - apply tsum_zero. intros th IN. destruct (T th IN) as [_ W]. unfold wP.
+    destruct (tpc th); try reflexivity.
+    all: destruct (pos_eqb_spec p0 p) as [E|E]; [|reflexivity]; subst p0; exfalso.
+    + destruct W as (_ & _ & L). congruence.
+    + destruct W as (_ & _ & L & _). congruence.
+    + destruct W as (_ & _ & L). congruence.
+    + destruct W as (_ & _ & L). congruence.
+  - apply tsum_zero. intros th IN. destruct (T th IN) as [_ W]. unfold wU.
+    destruct (tpc th); try reflexivity.
+    destruct (pos_eqb_spec (descend p0 d) p) as [E|E]; [|reflexivity]. exfalso.
+    destruct W as (_ & _ & L). rewrite E in L. congruence.
+Qed.
+
+Definition inflight (p : pos) : N := tsum (wP p) (ths st) + tsum (wU p) (ths st).
+
+Lemma level_step_conc : forall l, l < h ->
+  level_sum c m (l + 1) = level_sum c m l + sumN (N.to_nat (2 ^ (l + 1))) (fun o => inflight (mkPos (l + 1) o)).
+Proof.
+  intros l Hl. unfold level_sum.
+  set (cnt' := fun p => if live c (ascend p) then cnt_to m p else 0).
+  assert (EQ : forall o, o < N.of_nat (N.to_nat (2 ^ (l + 1))) ->
+               gav c m (mkPos (l + 1) o) = cnt' (mkPos (l + 1) o) + inflight (mkPos (l + 1) o)).
+  { intros o Ho. set (p := mkPos (l + 1) o).
+    assert (Vp : valid c p) by (split; cbn [level offset p]; lia).
+    unfold cnt', inflight. destruct (live c (ascend p)) eqn:L.
+    - pose proof (inv_tree _ _ _ _ HI p Vp ltac:(cbn [level p]; lia) L). lia.
+    - destruct (dead_parent p Vp ltac:(cbn [level p]; lia) L) as (A & B & D). rewrite A, B. unfold gav. rewrite D. reflexivity. }
+  rewrite (sumN_ext _ _ _ EQ), sumN_add. f_equal.
+  rewrite pow2_succ. replace (N.to_nat (2 * 2 ^ l)) with (2 * N.to_nat (2 ^ l))%nat by lia.
+  rewrite sumN_pairs. apply sumN_ext. intros j Hj.
+  set (q := mkPos l j).
+  assert (E0 : mkPos (l + 1) (2 * j) = descend q DLeft) by (unfold descend, q; cbn [level offset dbit]; f_equal; lia).
+  assert (E1 : mkPos (l + 1) (2 * j + 1) = descend q DRight) by (unfold descend, q; cbn [level offset dbit]; f_equal; lia).
+  rewrite E0, E1. unfold cnt'. rewrite !ascend_descend. unfold cnt_to. rewrite !ascdir_descend, !ascend_descend.
+  unfold gav. destruct (live c q); [|reflexivity]. unfold avail. rewrite (neqb (level q) h) by (cbn [level q]; lia). reflexivity.
+Qed.
+
+Lemma level_sum_conc : forall n, N.of_nat n <= h ->
+  level_sum c m (N.of_nat n) = level_sum c m 0 + lev_sum n inflight.
+Proof.
+  induction n as [|n IH]; intro H.
+  - cbn [lev_sum N.of_nat]. lia.
+  - cbn [lev_sum]. replace (N.of_nat (S n)) with (N.of_nat n + 1) by lia.
+    rewrite (level_step_conc (N.of_nat n)) by lia. rewrite IH by lia. lia.
+Qed.
+
+(* in every reachable state: what the root offers + the calls in progress in the tree = the free bits of the live leaves *)
+Theorem root_accounting :
+  (if 0 <? cap c then unpack_left (word m root) + unpack_right (word m root) else 0) + tsum wC (ths st) = Fsum c m.
+Proof.
+  pose proof wf as [W1 _ _ _].
+  pose proof (level_sum_conc (N.to_nat h) ltac:(lia)) as L. rewrite N2Nat.id in L.
+  change (Fsum c m) with (level_sum c m h). rewrite L.
+  f_equal.
+  - unfold level_sum. change (N.to_nat (2 ^ 0)) with 1%nat. cbn [sumN N.of_nat]. change (mkPos 0 0) with root.
+    unfold gav, live, lo, avail, lc, rc. cbn [level offset root]. rewrite (neqb 0 h) by lia.
+    destruct (N.ltb_spec 0 (cap c)); destruct (N.ltb_spec (0 * span c 0) (cap c)); lia.
+  - unfold inflight. rewrite lev_sum_add, !lev_sum_tsum.
+    rewrite <- (tsum_ext' _ _ (ths st) thread_in_tree).
+    induction (ths st) as [|a l IHl]; [reflexivity|]. rewrite !tsum_cons, lev_sum_add. lia.
+Qed.
+
+(* every page of the pool is accounted for, at every moment *)
+Definition wBusy (th : thread) : N := wHeld th + wInfl th + wC th.
+
+Theorem pool_accounting :
+  (if 0 <? cap c then unpack_left (word m root) + unpack_right (word m root) else 0) + tsum wBusy (ths st) = total.
+Proof.
+  pose proof root_accounting as R. pose proof (inv_sz1 _ _ _ _ HI) as S1. pose proof (inv_sz2 _ _ _ _ HI) as S2.
+  assert (tsum wBusy (ths st) = tsum wHeld (ths st) + tsum wInfl (ths st) + tsum wC (ths st)).
+  { unfold wBusy. apply tsum_add3. }
+  lia.
+Qed.
+
+Theorem empty_root_means_no_free_page :
+  unpack_left (word m root) = 0 -> unpack_right (word m root) = 0 -> tsum wBusy (ths st) = total.
+Proof. intros A B. pose proof pool_accounting as P. rewrite A, B in P. destruct (0 <? cap c); lia. Qed.
+End Conc.
+
+
+(* ================= a pop() fails only on reading an empty root ================= *)
+Lemma after_read_none : forall q w p1 ev1, after_inner_read q w = (p1, ev1) -> In (EvRetPop None) ev1 ->
+  level q = 0 /\ unpack_left w = 0 /\ unpack_right w = 0.
+Proof.
+  intros q w p1 ev1 A I1. unfold after_inner_read in A. destruct (inner_pop_choice w) as [[d n]|] eqn:CH.
+  - inversion A; subst. destruct I1.
+  - apply choice_none in CH. destruct (N.eqb_spec (level q) 0); inversion A; subst.
+    + tauto.
+    + destruct I1 as [F|[]]; discriminate.
+Qed.
+
+Ltac noev E IN := inversion E; subst; clear E; cbn [In] in IN; intuition discriminate.
+
+Lemma pstep_pop_none : forall c s p held scr s' p' held' scr' evs, cap c <> 0 ->
+  pstep c s p held scr = (s', p', held', scr', evs) -> In (EvRetPop None) evs ->
+  exists q, (p = PopLoad q \/ exists old, p = PopCas q old) /\ level q = 0 /\ s' = s /\
+            unpack_left (word (nodes s) q) = 0 /\ unpack_right (word (nodes s) q) = 0.
+Proof.
+  intros c s p held scr s' p' held' scr' evs C0 E IN. unfold crash in *.
+  destruct p; cbn [pstep] in E.
+  - destruct (fetch held scr) as [[[] r]|].
+    + destruct (N.eqb_spec (cap c) 0); [contradiction|]. noev E IN.
+    + destruct ((0 <? hd 0 held) && (hd 0 held <=? cap c)); noev E IN.
+    + destruct ((0 <? last held 0) && (last held 0 <=? cap c)); noev E IN.
+    + noev E IN.
+  - noev E IN.
+  - noev E IN.
+  - destruct (node_ok c p); [|noev E IN].
+    destruct (after_inner_read p (getw (nodes s) (nodes_before p))) as [p1 ev1] eqn:A. inversion E; subst; clear E.
+    destruct (after_read_none _ _ _ _ A IN) as (L0 & UL & UR).
+    exists p. split; [left; reflexivity|]. repeat split; assumption.
+  - destruct (N.eqb_spec (getw (nodes s) (nodes_before p)) old).
+    + destruct (inner_pop_choice old) as [[d n]|]; [|noev E IN].
+      destruct (level p <? tree_height c); noev E IN.
+    + destruct (after_inner_read p (getw (nodes s) (nodes_before p))) as [p1 ev1] eqn:A. inversion E; subst; clear E.
+      destruct (after_read_none _ _ _ _ A IN) as (L0 & UL & UR).
+      exists p. split; [right; exists old; reflexivity|]. repeat split; assumption.
+  - destruct (node_ok c p); [|noev E IN]. destruct (getw (nodes s) (nodes_before p) =? 0); noev E IN.
+  - destruct (getw (nodes s) (nodes_before p) =? old); [noev E IN|]. destruct (getw (nodes s) (nodes_before p) =? 0); noev E IN.
+  - destruct (((sz s + two32 - 1) mod two32 <? cap c) && (0 <? (id + 1) mod two32) && ((id + 1) mod two32 <=? cap c)); noev E IN.
+  - destruct ((sz s + 1) mod two32 <=? cap c); noev E IN.
+  - destruct (node_ok c _); [|noev E IN]. destruct (N.land _ _ =? 0); [|noev E IN].
+    unfold next_inner_push in E. destruct (0 <? _); noev E IN.
+  - destruct (node_ok c p); [|noev E IN]. destruct (_ <=? _); [|noev E IN].
+    destruct (at_root p); [noev E IN|]. unfold next_inner_push in E. destruct (0 <? _); noev E IN.
+Qed.
+
+Lemma nth_in' : forall (l : list thread) i th, nthN i l = Some th -> In th l.
+Proof.
+  induction l as [|a l IH]; intros i th H; simpl in H; [discriminate|].
+  destruct (i =? 0); [inversion H; left; reflexivity | right; eapply IH; eassumption].
+Qed.
+
+Section FailStep.
+Variable c : cfg.
+Hypothesis wf : WF c.
+Variable total : N.
+Variable inU : N -> bool.
+Hypothesis total_le : total <= cap c.
+Hypothesis inU_cap : forall x, inU x = true -> x < cap c.
+Variable st : state.
+Hypothesis HI : Inv c total inU st.
+
+(* the step in which pop() returns false reads a root whose two counters are zero and changes nothing; in the state
+   it reads, every page of the pool is accounted to some process: held, being pushed, or reserved by a committed pop *)
+Theorem pop_fails_only_when_no_page_free : forall t st' evs b,
+  step c st t = (st', evs, b) -> In (t, EvRetPop None) evs -> cap c <> 0 ->
+  sh st' = sh st /\
+  unpack_left (word (nodes (sh st)) root) = 0 /\ unpack_right (word (nodes (sh st)) root) = 0 /\
+  tsum wBusy (ths st) = total.
+Proof.
+  intros t st' evs b E IN C0. unfold step in E.
+  destruct (nthN t (ths st)) as [th|] eqn:NT; [|inversion E; subst; destruct IN].
+  destruct (terminal (tpc th)); [inversion E; subst; destruct IN|].
+  destruct (pstep c (sh st) (tpc th) (theld th) (tscr th)) as [[[[s1 p1] held1] scr1] evs1] eqn:P.
+  inversion E; subst; clear E.
+  apply in_map_iff in IN. destruct IN as (e & EE & IN). inversion EE; subst e; clear EE.
+  destruct (pstep_pop_none _ _ _ _ _ _ _ _ _ _ C0 P IN) as (q & PC & L0 & ES & UL & UR).
+  pose proof (inv_thr _ _ _ _ HI) as T. rewrite Forall_forall in T.
+  destruct (T th (nth_in' _ _ _ NT)) as [_ W].
+  assert (Vq : valid c q).
+  { destruct PC as [PC|[old PC]]; rewrite PC in W; tauto. }
+  rewrite (valid_level0 c wf q Vq L0) in *. cbn [sh]. subst s1.
+  split; [reflexivity|]. split; [assumption|]. split; [assumption|].
+  apply (empty_root_means_no_free_page c wf total inU total_le inU_cap st HI); assumption.
+Qed.
+End FailStep.
+
 (* ---------- statements in the form used by Properties_C53.v ---------- *)
 (* a start state: the parameters fit, and the invariant holds *)
 Definition Start (c : cfg) (total : N) (inU : N -> bool) (st0 : state) : Prop :=
@@ -1836,4 +2113,15 @@ Theorem reach_quiescent_tree_exact : quiescent (ths st) ->
   forall p, valid c p -> 1 <= level p -> live c (ascend p) = true ->
   cnt_to (nodes (sh st)) p = gav c (nodes (sh st)) p.
 Proof. destruct start_parts as (W & T & U & I). intro Q. apply (quiescent_tree_exact c W total inU T U st I Q). Qed.
+Theorem reach_pool_accounting :
+  (if 0 <? cap c then unpack_left (word (nodes (sh st)) root) + unpack_right (word (nodes (sh st)) root) else 0)
+  + tsum wBusy (ths st) = total.
+Proof. destruct start_parts as (W & T & U & I). apply (pool_accounting c W total inU T U st I). Qed.
+
+Theorem reach_pop_fails_only_when_no_page_free : forall t st' evs b,
+  step c st t = (st', evs, b) -> In (t, EvRetPop None) evs -> cap c <> 0 ->
+  sh st' = sh st /\
+  unpack_left (word (nodes (sh st)) root) = 0 /\ unpack_right (word (nodes (sh st)) root) = 0 /\
+  tsum wBusy (ths st) = total.
+Proof. destruct start_parts as (W & T & U & I). apply (pop_fails_only_when_no_page_free c W total inU T U st I). Qed.
 End Reach.
